@@ -7,7 +7,9 @@ use std::panic::{catch_unwind, AssertUnwindSafe};
 
 use serde_json::{json, Value};
 
+mod afftree;
 mod arena;
+mod tj;
 mod util;
 
 pub type Out<'a> = &'a mut dyn FnMut(Value);
@@ -30,6 +32,7 @@ fn run_script(sc: &Value, id: usize, out: Out) {
     match fam {
         "arena" => arena::run(sc, id, out),
         "iter" => arena::run_iter(sc, id, out),
+        "afftree" => afftree::run(sc, id, out),
         _ => out(json!({"fam": fam, "sc": id, "ev": "unknown_family"})),
     }
 }
